@@ -206,6 +206,103 @@ class CreatorLock(Harness):
         return ok
 
 
+CONF_DIR = '/etc/mapproxy'
+PROC_CWD = '/srv/run'
+
+
+class _CfgOsPath(symex._ShadowOsPath):
+    """os.path of the configuration loader: join as in the engine, abspath relative to the working directory of the process"""
+    def abspath(self, p):
+        if isinstance(p, str) and p.startswith('/'):
+            return p
+        if isinstance(p, SymPath) and p.comps and isinstance(p.comps[0], str) and p.comps[0].startswith('/'):
+            return p
+        return self.join(PROC_CWD, p)
+
+
+class _CfgOs(symex.ShadowOs):
+    def __init__(self):
+        symex.ShadowOs.__init__(self)
+        self.path = _CfgOsPath(os.path)
+
+
+class ConfiguredDirs(Harness):
+    """where the configuration loader puts the tile and lock files: the directory every cache backend (file, sqlite, compact,
+    mbtiles, geopackage single-file and per-level) is constructed with, and the lock directory, lie below the directory of the
+    configuration file when `directory` / `base_dir` / `filename` are relative -- never relative to the working directory of the
+    serving process.  The relative names are solver strings (one path component each)."""
+    modules = ['mapproxy.config.config', 'mapproxy.config.loader']
+    functions = ['finish_base_config', 'CacheConfiguration.cache_dir', 'CacheConfiguration.lock_dir', 'CacheConfiguration._file_cache', 'CacheConfiguration._sqlite_cache',
+                 'CacheConfiguration._compact_cache', 'CacheConfiguration._mbtiles_cache', 'CacheConfiguration._geopackage_cache', 'GlobalConfiguration.abspath',
+                 'GlobalConfiguration.get_path']
+
+    @classmethod
+    def build(cls, L, cfg):
+        m = L.mods['mapproxy.config.loader']
+        c = L.mods['mapproxy.config.config']
+        m.__dict__['os'] = c.__dict__['os'] = _CfgOs()
+        m.__dict__['finish_base_config'] = c.finish_base_config
+        m.__dict__['load_default_config'] = c.load_default_config
+        return dict(m=m)
+
+    @classmethod
+    def _component(cls, name):
+        v = FreeStr.var(name, 5)
+        comp = v.atoms[0]
+        assume(AND(NOT(symex.free_contains_char([comp], SEPS)), NOT(symex.free_eq_literal([comp], '..')), NOT(symex.free_eq_literal([comp], '.')),
+                   NOT(symex.free_eq_literal([comp], ''))))
+        return v
+
+    @classmethod
+    def inputs(cls, ctx, cfg):
+        return dict(directory=cls._component('directory'), base_dir=cls._component('base_dir'), filename=cls._component('filename'))
+
+    @classmethod
+    def native_inputs(cls, cex):
+        return {k: (v or 'x') for k, v in cex.items()}
+
+    @classmethod
+    def prop(cls, ctx, cfg, directory, base_dir, filename):
+        import mapproxy.cache.file as cf
+        import mapproxy.cache.mbtiles as cm
+        import mapproxy.cache.compact as cc_
+        import mapproxy.cache.geopackage as cg
+        m = ctx['m']
+        rec = []
+
+        def R(kind):
+            def mk(*a, **k):
+                rec.append(a[0] if a else k.get('cache_dir'))
+                return object()
+            return mk
+        patched = [(cf, 'FileCache'), (cm, 'MBTilesLevelCache'), (cm, 'MBTilesCache'), (cc_, 'CompactCacheV1'), (cc_, 'CompactCacheV2'),
+                   (cg, 'GeopackageCache'), (cg, 'GeopackageLevelCache')]
+        saved = [(mod, n, getattr(mod, n)) for mod, n in patched]
+        try:
+            for mod, n in patched:
+                setattr(mod, n, R(n))
+            cache = dict({'type': cfg['type']}, **cfg.get('extra', {}))
+            if cfg.get('filename'):
+                cache['filename'] = filename
+            if cfg['with_directory']:
+                cache['directory'] = directory
+            conf = {'globals': {'cache': {'base_dir': base_dir}}, 'services': {},
+                    'caches': {'c': {'grids': ['GLOBAL_MERCATOR'], 'sources': [], 'cache': cache}}}
+            pc = m.ProxyConfiguration(conf, conf_base_dir=CONF_DIR)
+            c = pc.caches['c']
+            gc = c.grid_confs()[0]
+            gc = gc[1] if isinstance(gc[0], str) else gc[0]
+            getattr(c, '_%s_cache' % cfg['type'])(gc, c.image_opts())
+            lock_dir = c.lock_dir()
+        finally:
+            for mod, n, v in saved:
+                setattr(mod, n, v)
+        ok = len(rec) == 1
+        for p in rec + [lock_dir]:
+            ok = AND(ok, stays_below(p, CONF_DIR))
+        return ok
+
+
 class CheckedDimensions(Harness):
     """TileLayer.checked_dimensions: whatever the request says, only configured values (or the
     default) reach the tile manager from the tile services."""
@@ -423,6 +520,14 @@ def obligations(tier, seed):
         specs.append(spec(MOD, 'AtomicWrite', 'atomic-write-stays-in-directory/%s' % (fail or 'ok'), cfg=dict(fail=fail)))
     for layout, first, second in (('tc', 'time_elev', 'none'), ('tms', 'dim_x', 'time_a')) + ((('mp', 'none', 'time_elev'), ('reverse_tms', 'time_a', 'none')) if tier == 'thorough' else ()):
         specs.append(spec(MOD, 'LinkTarget', 'single-colour-link-target/%s/%s-then-%s' % (layout, first, second), cfg=dict(layout=layout, first=first, second=second), cost=10))
+    for typ, extra, fn in (('file', {}, False), ('sqlite', {}, False), ('compact', {'version': 2}, False), ('mbtiles', {}, True),
+                           ('geopackage', {'table_name': 't'}, True), ('geopackage', {'levels': True, 'table_name': 't'}, False)):
+        for wd in (True, False):
+            name = 'configured-directories/%s%s/%s' % (typ, '-levels' if extra.get('levels') else '', 'relative-directory' if wd else 'relative-base_dir')
+            specs.append(spec(MOD, 'ConfiguredDirs', name, cfg=dict(type=typ, extra=extra, filename=fn, with_directory=wd), cost=5))
+    specs.append(spec(MOD, 'ConfiguredDirs', 'twin/ConfiguredDirs', kind='witness', cfg=dict(type='file', extra={}, filename=False, with_directory=True)))
+    specs.append(spec(MOD, 'ConfiguredDirs', 'canary/relative base_dir left relative', kind='canary', cfg=dict(type='sqlite', extra={}, filename=False, with_directory=False), cost=5,
+                      patches={'mapproxy.config.loader': [("        if value is not None:\n            value = self.abspath(value)\n        return value", "        return value")]}))
     specs.append(spec(MOD, 'LinkTarget', 'twin/LinkTarget', kind='witness', cfg=dict(layout='tc', first='time_elev', second='none')))
     specs.append(spec(MOD, 'AtomicWrite', 'twin/AtomicWrite', kind='witness', cfg={}))
     specs.append(spec(MOD, 'CachePath', 'twin/CachePath', kind='witness', cfg=dict(layout='tc', keys='time')))
